@@ -193,8 +193,13 @@ func runC15(c *core.Case) {
 	nlayer := false
 	var args string
 
+	var prime func() // optional: the same function on the uncorrupted argument, called right before (history)
 	do := func(name, argDesc string, f func() (any, error)) {
 		fn, args = name, argDesc
+		if prime != nil && r.P(0.5) {
+			c15Try(func() (any, error) { prime(); return nil, nil })
+			c.Tag("primed-with-valid-call")
+		}
 		out = c15Try(f)
 	}
 
@@ -225,6 +230,8 @@ func runC15(c *core.Case) {
 	case 1: // GetPointOnExtendedSpatialId: malformed ID / zoom field out of range / unknown option
 		opt := enum.PointOption(r.Intn(2))
 		id := vext()
+		valid := id
+		prime = func() { shape.GetPointOnExtendedSpatialId(valid, opt) }
 		switch r.Intn(3) {
 		case 0:
 			id, what, _ = malformID(r, id)
@@ -329,9 +336,14 @@ func runC15(c *core.Case) {
 				do("integrate.MergeExtendedSpatialIds", fmt.Sprintf("%q %d %d", l, z1, z2), func() (any, error) { return integrate.MergeExtendedSpatialIds(l, z1, z2) })
 			}
 		} else {
-			bad, kind, _ := malformID(r, vext())
+			valid := vext()
+			bad, kind, _ := malformID(r, valid)
 			l := mixList(r, vext, bad)
 			what = kind
+			prime = func() {
+				integrate.ChangeExtendedSpatialIdsZoom([]string{valid}, hz, vz)
+				integrate.MergeExtendedSpatialIds([]string{valid}, hz, vz)
+			}
 			if k == 6 {
 				do("integrate.ChangeExtendedSpatialIdsZoom", fmt.Sprintf("%q", l), func() (any, error) { return integrate.ChangeExtendedSpatialIdsZoom(l, hz, vz) })
 			} else {
@@ -361,8 +373,10 @@ func runC15(c *core.Case) {
 		}
 	// ---- operated ----
 	case 10, 11: // shift helpers: empty ID signal
-		bad, kind, _ := malformID(r, vext())
+		valid := vext()
+		bad, kind, _ := malformID(r, valid)
 		what, emptyIDSignal = kind, true
+		prime = func() { operated.GetShiftingSpatialID(valid, 1, 0, 0); operated.Get6spatialIdsAdjacentToFaces(valid) }
 		switch r.Intn(4) {
 		case 0:
 			do("operated.GetShiftingSpatialID", fmt.Sprintf("%q", bad), func() (any, error) {
@@ -401,8 +415,10 @@ func runC15(c *core.Case) {
 	case 13, 14, 15, 16:
 		expectFalse = true
 		if k <= 14 {
-			bad, kind, _ := malformID(r, vext())
+			valid := vext()
+			bad, kind, _ := malformID(r, valid)
 			other := vext()
+			prime = func() { detector.CheckExtendedSpatialIdsOverlap(valid, other) }
 			if r.P(0.3) {
 				other = bad // the same malformed string on both sides
 			}
@@ -616,6 +632,8 @@ func runC15(c *core.Case) {
 	case 27: // clearance fit: negative clearance, malformed ID
 		id := genID(r, 10, 25, 0, 35).Ext()
 		cl := 1.0
+		valid := id
+		prime = func() { transform.FitClearanceAroundExtendedSpatialID(valid, 1.0) }
 		if r.Bool() {
 			cl, what = -math.Pow(10, r.Uniform(-12, 6)), "negative-radius"
 		} else {
@@ -696,8 +714,10 @@ func runC15(c *core.Case) {
 		}
 		return
 	case 32, 33: // extended-ID object parser
-		bad, kind, _ := malformID(r, vext())
+		validP := vext()
+		bad, kind, _ := malformID(r, validP)
 		what = kind
+		prime = func() { object.NewExtendedSpatialID(validP) }
 		if k == 32 {
 			do("object.NewExtendedSpatialID", fmt.Sprintf("%q", bad), func() (any, error) { _, e := object.NewExtendedSpatialID(bad); return nil, e })
 		} else {
@@ -732,16 +752,42 @@ func runC15(c *core.Case) {
 		default:
 			do("object.TileXYZ.SetVZoom", fmt.Sprint(z), func() (any, error) { t, _ := object.NewTileXYZ(5, 1, 1, 5, 1); return nil, t.SetVZoom(z) })
 		}
-	default: // 37..39: whole-list corruptions of the most used entry points (several malformed entries, nil list)
+	case 37: // long lists: more than 1024 pairs, one overlapping pair early, the malformed ID anywhere
+		expectFalse = true
+		n1, n2 := 30+r.Intn(20), 36+r.Intn(20)
+		var l1, l2 []string
+		for len(l1) < n1 {
+			l1 = append(l1, vext())
+		}
+		for len(l2) < n2 {
+			l2 = append(l2, vext())
+		}
+		if r.P(0.7) { // an overlap involving the first element of the first list
+			l2[r.Intn(n2)] = l1[0]
+		}
+		bad, kind, _ := malformID(r, vext())
+		if r.Bool() {
+			l1[r.Intn(n1)] = bad
+		} else {
+			l2[r.Intn(n2)] = bad
+		}
+		what = kind
+		if r.Bool() {
+			l1, l2 = l2, l1
+		}
+		do("detector.CheckExtendedSpatialIdsArrayOverlap", fmt.Sprintf("long lists (%d x %d) with %q", len(l1), len(l2), bad), func() (any, error) { return detector.CheckExtendedSpatialIdsArrayOverlap(l1, l2) })
+	default: // 38..39: whole-list corruptions of the most used entry points (several malformed entries, nil list)
 		bad1, k1, _ := malformID(r, vext())
 		bad2, k2, _ := malformID(r, vext())
 		l := []string{bad1, vext(), bad2}
 		what = "two-malformed-entries"
 		_, _ = k1, k2
 		switch k {
-		case 37:
-			do("integrate.ChangeExtendedSpatialIdsZoom", fmt.Sprintf("%q", l), func() (any, error) { return integrate.ChangeExtendedSpatialIdsZoom(l, hz, vz) })
 		case 38:
+			if r.Bool() {
+				do("integrate.ChangeExtendedSpatialIdsZoom", fmt.Sprintf("%q", l), func() (any, error) { return integrate.ChangeExtendedSpatialIdsZoom(l, hz, vz) })
+				break
+			}
 			do("integrate.MergeExtendedSpatialIds", fmt.Sprintf("%q", l), func() (any, error) { return integrate.MergeExtendedSpatialIds(l, hz, vz) })
 		default:
 			expectFalse = true
